@@ -120,6 +120,9 @@ def gen_vocab_isa(rnd):
         body = [first if kind is None else (f'{first} 1' if kind == 'imm' else (
             f'{first} {enum_keys[0]}' if kind == 'flags' else f'{first} {regs[0]}'))]
         isa['macros'] = {m: [{'operands': {'count': 0}, 'instructions': body + body}] for m in macros}
+    elif len(mn) % 3 == 0:
+        # the section is there but holds nothing (an empty mapping, or a header whose entries are commented out)
+        isa['macros'] = {} if len(mn) % 2 else None
     pre = {}
     if rnd.random() < 0.5:
         pre['constants'] = [{'name': n, 'value': 3} for n in rnd.sample(['K1', 'SIZE', 'BASE', 'io.port', 'K'], 2)]
@@ -136,7 +139,7 @@ def effective_isa(case):
     isa = copy.deepcopy(case['isa'])
     if 'instr_keep' in case:
         isa['instructions'] = {k: v for k, v in isa['instructions'].items() if k in case['instr_keep']}
-    if 'macro_keep' in case and 'macros' in isa:
+    if 'macro_keep' in case and isa.get('macros'):
         isa['macros'] = {k: v for k, v in isa['macros'].items() if k in case['macro_keep']}
         if not isa['macros']:
             del isa['macros']
@@ -150,7 +153,7 @@ def vocab_of(isa):
             if op.get('type') == 'enumeration':
                 outsiders += list(op.get('bytecode', {}).get('value_dict', {}))
     return {'instructions': [m.lower() for m in isa['instructions']],
-            'macros': [m.lower() for m in isa.get('macros', {})],
+            'macros': [m.lower() for m in isa.get('macros') or {}],
             'registers': list(isa['general'].get('registers') or []),
             'outsiders': outsiders}
 
@@ -458,6 +461,30 @@ def check_outputs(files, case, isa):
                 v.append(f'PH-placeholder-left-in-{os.path.basename(p).split(".")[-1]}')
                 detail.setdefault('placeholder', []).append((os.path.basename(p), PLACEHOLDER.findall(text_of(p))[:3]))
         gp = f'{root}/syntaxes/tmGrammar.json'
+        if not any(x.startswith('WF-') for x in v):
+            # the package's own cross references: the editor attaches the grammar through them, so rules that are
+            # registered under a scope / language / path that does not exist classify nothing
+            pkg = json.loads(text_of(f'{root}/package.json'))
+            contrib = pkg.get('contributes', {})
+            lang_ids = [x.get('id') for x in contrib.get('languages', [])]
+            gscope = json.loads(text_of(gp)).get('scopeName')
+            for g in contrib.get('grammars', []) or [{}]:
+                if g.get('scopeName') != gscope or not gscope:
+                    v.append('WF-package-grammar-scope-name-mismatch')
+                    detail['scope'] = [g.get('scopeName'), gscope]
+                if g.get('language') not in lang_ids:
+                    v.append('WF-package-grammar-language-unknown')
+                if os.path.normpath(f'{root}/{g.get("path", "?")}') not in outs:
+                    v.append('WF-package-grammar-path-missing')
+            for key in ('snippets', 'themes'):
+                for x in contrib.get(key, []):
+                    if os.path.normpath(f'{root}/{x.get("path", "?")}') not in outs:
+                        v.append(f'WF-package-{key}-path-missing')
+                    if key == 'snippets' and x.get('language') not in lang_ids:
+                        v.append('WF-package-snippets-language-unknown')
+            for x in contrib.get('languages', []):
+                if os.path.normpath(f'{root}/{x.get("configuration", "?")}') not in outs:
+                    v.append('WF-package-language-configuration-path-missing')
         if gp in outs and not any(x.startswith('WF-syntaxes') for x in v):
             try:
                 rules = vscode_rules(json.loads(text_of(gp)))
@@ -490,6 +517,20 @@ def check_outputs(files, case, isa):
         for s in stems:
             if not any(n.endswith(s) for n in names):
                 v.append(f'WF-zip-member-missing-{s.strip("_.")}')
+        # every member that names the syntax's scope names the same one
+        scopes = {}
+        for n in names:
+            txt = zf.read(n).decode('utf-8', 'replace')
+            if n.endswith('.sublime-syntax'):
+                scopes[n] = set(re.findall(r'(?m)^scope:\s*(\S+)', txt))
+            elif n.endswith(('.tmPreferences', '.sublime-keymap', '.sublime-snippet')):
+                scopes[n] = set(re.findall(r'\bsource\.[^\s<"\',]+', txt))
+        syn_scopes = set().union(*[sc for n, sc in scopes.items() if n.endswith('.sublime-syntax')] or [set()])
+        if len(syn_scopes) != 1:
+            v.append('WF-sublime-syntax-scope-missing')
+        elif any(sc and sc != syn_scopes for n, sc in scopes.items()):
+            v.append('WF-sublime-scope-name-mismatch')
+            detail['scopes'] = {n: sorted(sc) for n, sc in scopes.items()}
         leftovers = [p for p in files if p.startswith('/sim/tmp/')]
         if leftovers:
             v.append('WF-temporary-files-left-behind')
@@ -762,7 +803,7 @@ def explore(subseed, cfg):
     pr = out['probes']
     isa = gen_vocab_isa(rnd)
     vocab = vocab_of(isa)
-    base = {'isa': isa, 'instr_keep': list(isa['instructions']), 'macro_keep': list(isa.get('macros', {})),
+    base = {'isa': isa, 'instr_keep': list(isa['instructions']), 'macro_keep': list(isa.get('macros') or {}),
             'fmt': rnd.choice(['json', 'yaml']), 'opts': []}
     # command-line options of the generator are part of the configuration space
     base['opts'] += ['-v'] * rnd.choice([0, 0, 1, 2, 3, 4])
@@ -865,17 +906,17 @@ def explore(subseed, cfg):
             elif mode == 'prior-fails-no-out-dir':
                 other = gen_vocab_isa(rnd)
                 c['prior'] = {'isa': other, 'instr_keep': list(other['instructions']),
-                              'macro_keep': list(other.get('macros', {})), 'no_out_dir': True}
+                              'macro_keep': list(other.get('macros') or {}), 'no_out_dir': True}
             elif mode == 'prior-io-fault':
                 other = gen_vocab_isa(rnd)
                 c['prior'] = {'isa': other, 'instr_keep': list(other['instructions']),
-                              'macro_keep': list(other.get('macros', {})),
+                              'macro_keep': list(other.get('macros') or {}),
                               'faults': [{'at': rnd.randrange(2, 40), 'kind': rnd.choice(
                                   ['open_enospc', 'write_enospc_after', 'open_eacces', 'close_eio']), 'k': 10}]}
             else:
                 other = gen_vocab_isa(rnd)
                 c['prior'] = {'isa': other, 'instr_keep': list(other['instructions']),
-                              'macro_keep': list(other.get('macros', {}))}
+                              'macro_keep': list(other.get('macros') or {})}
             if rnd.random() < 0.5:
                 c['isa_older_than_leftovers'] = True
                 pr['two_run_isa_older_than_leftovers'] = pr.get('two_run_isa_older_than_leftovers', 0) + 1
